@@ -53,6 +53,9 @@ def tp_frames(dll, seed, n):
                           (0x25, [0x40, 0xD0, 0, 3, 7, 8, 9, 0]), (0xEC, [16, 20, 0, 3, 1, 0, 0xD0, 0])]
             pf, d = rng.choice(frames)
             o = {"t": t, "node": "A", "id": (7 << 26) | (pf << 16) | (da << 8) | sa, "data": d, "fd": fd}
+            if pf == 0xEB and rng.random() < 0.3:
+                pf = rng.choice([0xD0, 0xEF, 0x00])          # a plain destination-specific group instead, on either data page
+                o["id"] = (6 << 26) | (rng.choice([0, 1]) << 24) | (pf << 16) | (da << 8) | sa
             fl = rng.random()
             if fl < 0.4:
                 o["flags"] = {"ext": True, "remote": False, "error": False}
